@@ -167,3 +167,83 @@ class SegmentPointRoundTrip(Contract):
         return _rot_eq(got, want, closed)
 
     ensures = [prop("same-segments-after-the-point-protocol", lambda a, old, r: SegmentPointRoundTrip._post(a, r))]
+
+
+# -- transform / rounding / record-and-replay -------------------------------------------------------
+
+def _map_contour(contour, f):
+    return [(op, tuple(None if p is None else f(p) for p in pts)) for op, pts in contour]
+
+
+def _eq_contour(a, b):
+    if len(a) != len(b):
+        return False
+    cs = []
+    for (o1, p1), (o2, p2) in zip(a, b):
+        if o1 != o2 or len(p1) != len(p2):
+            return False
+        for x, y in zip(p1, p2):
+            if x is None or y is None:
+                if x is not y:
+                    return False
+                continue
+            cs.append(And(eq(x[0], y[0]), eq(x[1], y[1])))
+    return And(*cs)
+
+
+@contract
+class TransformAndRoundingPens(Contract):
+    """TransformPen maps every point of every command by the affine matrix and nothing else
+    (commands, order, point counts kept); two nested TransformPens equal one pen with the
+    composed matrix; RoundingPen(roundFunc=otRound) moves every coordinate to the nearest integer
+    (ties up); RecordingPen.replay reproduces the recorded commands.  Structures of up to two
+    segments, all coordinates and matrix entries symbolic."""
+    module = "fontTools.pens.transformPen"
+    qualname = "TransformPen.__init__"
+    props = ("C14",)
+    shadow_mode = "real"
+    level = "PF"
+    assumptions = ("A-REAL",)
+    variants = tuple(v for v in ReversedContour.variants if len(v[0]) <= 2 and not v[2])
+
+    args = ReversedContour.args
+
+    def call(self, f, a):
+        from fontTools.pens.transformPen import TransformPen
+        from fontTools.pens.roundingPen import RoundingPen
+        from fontTools.pens.recordingPen import RecordingPen
+        from pyvc.models import round_tools
+        S = self._S
+        m = tuple(S.real("m%d" % i) for i in range(6))
+        n = tuple(S.real("n%d" % i) for i in range(6))
+        r1, r2, r3, r4 = RecordingPen(), RecordingPen(), RecordingPen(), RecordingPen()
+        src = RecordingPen()
+        src.value = list(a.contour)
+        src.replay(r4)
+        src.replay(TransformPen(r1, m))
+        src.replay(TransformPen(TransformPen(r2, n), m))
+        src.replay(RoundingPen(r3, roundFunc=round_tools().otRound))
+        return r1.value, r2.value, r3.value, r4.value, m, n
+
+    def args(self, S, variant):
+        self._S = S
+        return ReversedContour.args(self, S, variant)
+
+    @staticmethod
+    def _affine(m):
+        return lambda p: (m[0] * p[0] + m[2] * p[1] + m[4], m[1] * p[0] + m[3] * p[1] + m[5])
+
+    @staticmethod
+    def _round_ok(a, r):
+        from pyvc.spec import floor
+        from fractions import Fraction
+        want = _map_contour(a._orig, lambda p: (floor(p[0] + Fraction(1, 2)), floor(p[1] + Fraction(1, 2))))
+        return _eq_contour(r[2], want)
+
+    ensures = [
+        prop("every-point-mapped-by-the-matrix", lambda a, old, r: _eq_contour(r[0], _map_contour(a._orig, TransformAndRoundingPens._affine(r[4])))),
+        prop("nested-pens-compose", lambda a, old, r: _eq_contour(r[1], _map_contour(
+            _map_contour(a._orig, TransformAndRoundingPens._affine(r[4])), TransformAndRoundingPens._affine(r[5])))),
+        prop("rounding-pen-rounds-to-nearest", lambda a, old, r: TransformAndRoundingPens._round_ok(a, r)),
+        prop("replay-reproduces-the-recording", lambda a, old, r: _eq_contour(r[3], a._orig)),
+    ]
